@@ -198,8 +198,9 @@ impl C01 {
             obs.violation("thor-exit-status", format!("{}: thor exits with {:?}", origin, r.code), json!({"stderr": String::from_utf8_lossy(&r.stderr).chars().take(300).collect::<String>()}));
             return;
         }
+        // what thor prints to its own stdout is not part of the property (only the -o file is); recorded, not judged
         if !r.stdout.is_empty() {
-            obs.violation("thor-writes-to-stdout-without-verbosity", format!("{}: thor -o writes {} bytes to stdout", origin, r.stdout.len()), json!({}));
+            obs.count("thor_runs_with_stdout_output");
         }
         match text.and_then(|t| Model::from_json(&t).ok()) {
             Some(m) => {
@@ -262,22 +263,29 @@ impl C01 {
         let b = gen_building(rng, &BuildCfg::full());
         let lay = Layout::random(rng);
         let bdl = print_blocks(rng, &b.blocks(), &lay);
-        // a system section copied from a real project (VyP and GT sections)
-        let systems = if rng.chance(0.5) {
-            let files = crate::corpus::ctehexml_files();
-            let t = crate::corpus::read_utf8(&files[rng.usize(files.len())]);
-            let mut s = String::new();
-            for tag in ["Definicion_Sistema", "Definicion_Sistema_CALENER_GT"] {
-                if let (Some(a), Some(e)) = (t.find(&format!("<{}>", tag)), t.find(&format!("</{}>", tag))) {
-                    s.push_str(&t[a..e + tag.len() + 3]);
-                    s.push('\n');
+        // system sections: none, copied from a real project (VyP and GT sections), or generated with every kind the format knows
+        let mut general_extra = String::new();
+        let systems = match rng.usize(4) {
+            0 => String::new(),
+            1 => {
+                let files = crate::corpus::ctehexml_files();
+                let t = crate::corpus::read_utf8(&files[rng.usize(files.len())]);
+                let mut s = String::new();
+                for tag in ["Definicion_Sistema", "Definicion_Sistema_CALENER_GT"] {
+                    if let (Some(a), Some(e)) = (t.find(&format!("<{}>", tag)), t.find(&format!("</{}>", tag))) {
+                        s.push_str(&t[a..e + tag.len() + 3]);
+                        s.push('\n');
+                    }
                 }
+                s
             }
-            s
-        } else {
-            String::new()
+            _ => {
+                let (extra, sys, _) = crate::gen::sysxml::gen_systems(rng, &b.space_names(), false);
+                general_extra = extra;
+                sys
+            }
         };
-        let full = b.ctehexml(&bdl, &systems);
+        let full = b.ctehexml_ext(&bdl, &general_extra, &systems);
         let d = scratch_dir(tag);
         std::fs::write(d.join("proyecto.ctehexml"), &full).ok()?;
         // result files made by the harness from the library's own conversion: a few walls, a few windows
@@ -322,7 +330,7 @@ impl Property for C01 {
         "C01"
     }
     fn rule(&self) -> String {
-        "the built binaries hulc2model and thor are spawned on the 12 shipped project directories and on synthetic project directories written by the harness's printers (half with a copied VyP/GT system section, most with harness-made KyG/tbl files giving wall-only, window-only or two-sided overrides) x {default, --use-extra} x RUST_LOG {unset, info, debug}; stdout/stderr/exit status captured byte-exactly: stdout must hold exactly one JSON value (serde_json stream deserialiser) that loads to a model equal in every field (Debug text) to hulc2model::collect_hulc_data for the same directory; 4 kinds of directories without project: non-zero exit and no JSON value at any '{'/'[' offset of stdout; thor FILE -o OUT: OUT loads to the library's model and nothing is written to stdout; in-process: bytes arriving at fd 1 during library calls are counted and must be 0; thorough repeats with the release-profile binaries; non-trivial = distinct (directory, option, RUST_LOG, profile) run".into()
+        "the built binaries hulc2model and thor are spawned on the 12 shipped project directories and on synthetic project directories written by the harness's printers (a quarter with a copied VyP/GT system section, half with generated system sections, most with harness-made KyG/tbl files giving wall-only, window-only or two-sided overrides) x {default, --use-extra} x RUST_LOG {unset, info, debug}; stdout/stderr/exit status captured byte-exactly: stdout must hold exactly one JSON value (serde_json stream deserialiser) that loads to a model equal in every field (Debug text) to hulc2model::collect_hulc_data for the same directory; 4 kinds of directories without project: non-zero exit and no JSON value at any '{'/'[' offset of stdout; thor FILE -o OUT: OUT loads to the library's model (thor's own stdout is recorded, not judged); in-process: bytes arriving at fd 1 during library calls are counted and must be 0, also over generated projects whose system sections (VyP systems x equipment x terminal units, on-site production and ventilation records, GT loops/plant/air systems/zones; floor: 75 of 82 kinds seen in converted projects) drive every branch of the systems parser that runs inside each conversion; thorough repeats with the release-profile binaries; non-trivial = distinct (directory, option, RUST_LOG, profile) run".into()
     }
     fn assumptions(&self) -> Vec<String> {
         vec!["binaries are built by ./check from /repo's working tree without the verification cfg (dev profile; thorough also the workspace release profile)".into(), "the Windows GUI is out of scope".into()]
@@ -331,7 +339,8 @@ impl Property for C01 {
         vec![
             ("real".into(), crate::corpus::project_dirs().len() as u64 * 2),
             ("real-logging".into(), 6),
-            ("synthetic".into(), tier.pick(10, 60)),
+            ("synthetic".into(), tier.pick(16, 96)),
+            ("library-stdout".into(), tier.pick(400, 8000)),
             ("thor".into(), crate::corpus::ctehexml_files().len() as u64),
             ("negative".into(), 4),
             ("release-profile".into(), tier.pick(0, crate::corpus::project_dirs().len() as u64 + 4)),
@@ -347,6 +356,7 @@ impl Property for C01 {
             ("negative_runs".into(), 8),
             ("library_calls_with_stdout_watched".into(), 30),
             ("models_with_one_sided_overrides".into(), tier.pick(1, 3)),
+            ("distinct:syskind:".into(), 75),
         ]
     }
     fn case_timeout_s(&self, tier: Tier) -> u64 {
@@ -373,6 +383,48 @@ impl Property for C01 {
                         self.thor_case(&f, &origin, false, obs);
                     }
                     let _ = std::fs::remove_dir_all(&d);
+                }
+            }
+            "library-stdout" => {
+                // in process: a generated project with generated system sections (every kind of VyP system, equipment,
+                // terminal unit, on-site production record, ventilation record, GT block), fd 1 watched
+                let b = gen_building(&mut rng, &BuildCfg::full());
+                let bdl = print_blocks(&mut rng, &b.blocks(), &Layout::hulc());
+                let unknown = case.index % 5 == 4;
+                let (extra, sys, sum) = crate::gen::sysxml::gen_systems(&mut rng, &b.space_names(), unknown);
+                let full = b.ctehexml_ext(&bdl, &extra, &sys);
+                let before = crate::fdcap::stdout_bytes();
+                let r = crate::convert::convert_ctehexml_fast(&full);
+                let after = crate::fdcap::stdout_bytes();
+                obs.eval();
+                obs.count("library_calls_with_stdout_watched");
+                obs.nontrivial(crate::rng::fnv64(full.as_bytes()));
+                match r {
+                    crate::convert::Conv::Ok(_) => {
+                        obs.count("library-stdout:converted");
+                        for k in &sum.kinds {
+                            obs.count(&format!("syskind:{}", k));
+                        }
+                        if after != before {
+                            obs.violation(
+                                "library-writes-to-stdout",
+                                format!("converting a generated project (systems: {}) wrote {} bytes to standard output, beginning with {:?}", sum.kinds.join(", ").chars().take(200).collect::<String>(), after - before, crate::fdcap::stdout_slice(before, 80)),
+                                json!({"ctehexml_without_bdl": format!("{}\n…\n{}", extra, sys).chars().take(6000).collect::<String>()}),
+                            );
+                            crate::fdcap::reset();
+                        }
+                    }
+                    crate::convert::Conv::Err(e) => {
+                        obs.count("library-stdout:rejected");
+                        if !sum.has_unknown {
+                            obs.harness_error(format!("generated system section without unknown kinds is rejected: {}", e));
+                        }
+                        if after != before {
+                            obs.count("stdout_bytes_on_rejected_input");
+                            crate::fdcap::reset();
+                        }
+                    }
+                    crate::convert::Conv::Panic(p) => obs.panic_violation(&p, json!({"where": "conversion of a generated project with system sections"})),
                 }
             }
             "thor" => {
